@@ -312,6 +312,13 @@ func (c *goCallable) validateArgTypes(argv []reflect.Value) ([]reflect.Value, er
 			reflect.PtrTo(v.Type()).Implements(jtypes.TypeCallable) {
 			if v.CanAddr() {
 				v = v.Addr()
+			} else if v.CanInterface() {
+				// A function that is stored by value (e.g.
+				// a member of an array returned by a library
+				// function). Pass a pointer to a copy.
+				p := reflect.New(v.Type())
+				p.Elem().Set(v)
+				v = p
 			}
 		}
 
